@@ -272,6 +272,8 @@ theorem astep_log_cases (a : AState) (op : Op) (r : Reg) (hr : r ∈ (astep a op
   | touchInst c => exact Or.inl hr
   | readFns c => exact Or.inl hr
   | read c => exact Or.inl hr
+  | touchVia v c => exact Or.inl hr
+  | readVia v c => exact Or.inl hr
 
 theorem tables_same {u u' : UState} {a : AState} (h : TablesOk u a) (ha : u'.aware = u.aware) :
     TablesOk u' a := by
